@@ -177,7 +177,13 @@ def main(argv):
             pre_infra.append(("gen/symround.py cannot reify the kernels' expressions from the current headers (does not compile "
                               "with the symbolic scalar - e.g. a value routed through float -, a divisor that is not an "
                               "integer constant, a scalar comparison, an uninitialised scalar, an exception or a crash)", out[-3000:]))
-    if os.path.exists(os.path.join(pipeline.COQ, f"Properties_{pid}_O.v")):
+    if pid == "C16":
+        # coq/gen/OpsGen_*.v are inputs of coq/gen/RoundOpsGen_*.v (whole operations, rounding bound)
+        for script, what in (("symops.py", "extract the results of the public operations"), ("symroundops.py", "reify the results of the public operations")):
+            rc, out, _ = pipeline.sh([sys.executable, os.path.join(VERIF, "gen", script)], timeout=900)
+            if rc != 0:
+                pre_infra.append((f"gen/{script} cannot {what} from the current headers", out[-3000:]))
+    if os.path.exists(os.path.join(pipeline.COQ, f"Properties_{pid}_O.v")) and pid != "C16":
         # coq/gen/OpsGen_*.v (owners: C03 C04 C06 C07): whole public operations run over the symbolic scalar type
         rc, out, _ = pipeline.sh([sys.executable, os.path.join(VERIF, "gen", "symops.py")], timeout=900)
         if rc != 0:
